@@ -145,6 +145,20 @@ Theorem C17_mask_nearest_neighbour :
 Proof. exact mask_nearest_neighbour. Qed.
 Print Assumptions C17_mask_nearest_neighbour.
 
+(* segment structure: no mask or segment vanishes silently. A successful call leaves at least one sample set in the
+   mask and in every segment; if the rescaled mask (or a segment) would be empty, the call raises IndexError
+   (helper.boundary_slice on an empty mask) *)
+Theorem C17_no_segment_vanishes :
+  forall (P : plane) (s : Qc),
+  (forall P', plane_rescale P s = Ok P' ->
+     (forall a', o_mask P' = OMono a' -> exists i j, (0 <= i < onr a')%Z /\ (0 <= j < onc a')%Z /\ oget a' i j = Known 1) /\
+     (forall l', o_mask P' = OCube l' -> Forall (fun a' =>
+        exists i j, (0 <= i < onr a')%Z /\ (0 <= j < onc a')%Z /\ oget a' i j = Known 1) l')) /\
+  (forall fa fo m0, rescale_fld (p_amp P) s (fun v => v / s) = Ok fa -> rescale_fld (p_opd P) s (fun v => v) = Ok fo ->
+     rescale_msk0 (p_mask P) s = Ok m0 -> nonempty_msk m0 = false -> plane_rescale P s = Err IndexError).
+Proof. exact no_segment_vanishes. Qed.
+Print Assumptions C17_no_segment_vanishes.
+
 (* segment structure: two segment masks of equal shape that never overlap do not overlap after rescaling *)
 Theorem C17_segments_stay_disjoint :
   forall (a b : qarr) (s : Qc) (a' b' : oarr),
